@@ -24,7 +24,13 @@ def run():
     env = dict(os.environ, CARGO_NET_OFFLINE="true", CARGO_TARGET_DIR=os.path.join(extract.WORK, "target", "witness"))
     env.pop("RUSTC_WORKSPACE_WRAPPER", None)
     env.pop("RUSTFLAGS", None)
-    r = subprocess.run(["cargo", "+nightly", "test", "--doc", "--offline"], cwd=d, env=env, stdout=subprocess.PIPE, stderr=subprocess.STDOUT, text=True)
+    env["CARGO_INCREMENTAL"] = "0"
+    import fcntl
+    os.makedirs(extract.WORK, exist_ok=True)
+    with open(os.path.join(extract.WORK, "facts.lock"), "w") as lk:  # one cargo at a time in the shared target directories
+        fcntl.flock(lk, fcntl.LOCK_EX)
+        extract.trim_target(env["CARGO_TARGET_DIR"])
+        r = subprocess.run(["cargo", "+nightly", "test", "--doc", "--offline"], cwd=d, env=env, stdout=subprocess.PIPE, stderr=subprocess.STDOUT, text=True)
     out = {}
     for m in re.finditer(r"test src/lib\.rs - (\w+) \(line \d+\)( - compile fail| - compile)? \.\.\. (\w+)", r.stdout):
         out[m.group(1)] = ("compile fail" if (m.group(2) or "").endswith("fail") else "ok", m.group(3))
